@@ -152,6 +152,8 @@ struct BcWriterForLoop {
     inner_addr: BcAddr,
     /// Addresses to patch with the address of the instruction after the loop.
     end_addrs_to_patch: Vec<PatchAddr>,
+    /// Iteration is already stopped at the current point (between `InstrIterStop` and `return`).
+    stopped: bool,
 }
 
 /// Write bytecode here.
@@ -249,9 +251,17 @@ impl<'f> BcWriter<'f> {
     /// Version of instruction write with explicit slow arg arg.
     fn do_write_generic_explicit<I: BcInstr>(
         &mut self,
-        slow_arg: BcInstrSlowArg,
+        mut slow_arg: BcInstrSlowArg,
         arg: I::Arg,
     ) -> (BcAddr, *const I::Arg) {
+        // Record the iterations which must be stopped if this instruction fails.
+        slow_arg.active_iters = self
+            .for_loops
+            .iter()
+            .filter(|for_loop| !for_loop.stopped)
+            .map(|for_loop| for_loop.iter)
+            .collect();
+
         // If the previously written instruction was a form of a call
         // instruction, instrument this instruction with the current statement
         // span so that the time this and following instructions take can be
@@ -492,6 +502,7 @@ impl<'f> BcWriter<'f> {
                 end_addrs_to_patch: vec![end_patch],
                 var,
                 iter: iter.to_in(),
+                stopped: false,
             });
             bc.max_loop_depth = cmp::max(bc.max_loop_depth, LoopDepth(bc.for_loops.len() as u32));
             body(bc);
@@ -512,6 +523,14 @@ impl<'f> BcWriter<'f> {
         for depth in (0..self.for_loops.len()).rev() {
             let iter = self.for_loops[depth].iter;
             self.write_instr::<InstrIterStop>(span, iter);
+            self.for_loops[depth].stopped = true;
+        }
+    }
+
+    /// Code after `return` (in other branches) is executed with all enclosing iterations active.
+    pub(crate) fn after_return(&mut self) {
+        for for_loop in &mut self.for_loops {
+            for_loop.stopped = false;
         }
     }
 
